@@ -23,7 +23,8 @@ EXPLANATION = (
     "command); a lost product invalidates its creator (chain); the propagation chain update_file_hashes -> handlers -> "
     "mark_step_pending -> mark_file_outdated is intact and each handler reacts per state (finite-domain tables); "
     "full recycle compares all four declaration lists; startup runs its scans in order before the builder resumes. "
-    "Decides these necessary mechanisms, not equality of outputs and graphs for all histories."
+    "Decides these necessary mechanisms, not equality of outputs and graphs for all histories. "
+    'Also: every Python-level OUTDATED->BUILT revalidation is followed by the consumer notification on the same path; after_recycle overwrites every declaration attribute on every path; after_lost_product hands the invalidation up the detached creator chain; can_recycle compares each list with its own initial (dynamic=False) counterpart.'
 )
 ASSUMPTIONS = ["step hashes are sound (C13)", "the finite set of change reactions enumerated here is complete (files, env vars, globs)"]
 
